@@ -2764,8 +2764,8 @@ fn struct_debug() {
     // hand-minimised IFT format 1 feature maps for the three patchmap.rs sites
     for (name, max_entry, recs) in [
         ("patchmap.rs:298 index * field_width * 2", 400u16, vec![(*b"dlig", 301u16, 16385u16)]),
-        ("patchmap.rs:300 first_new_entry_index + i", 100, vec![(*b"dlig", 65535, 2)]),
-        ("patchmap.rs:285 cumulative_entry_map_count", 100, vec![(*b"liga", 50, 1), (*b"liga", 50, 65535)]),
+        ("patchmap.rs:300 first_new_entry_index + i", 256, vec![(*b"dlig", 65535, 2)]),
+        ("patchmap.rs:285 cumulative_entry_map_count", 256, vec![(*b"liga", 50, 1), (*b"liga", 50, 65535)]),
     ] {
         let ift = build_ift_format1(max_entry, 10, &recs, &[], true);
         let n = ift.len();
